@@ -17,7 +17,7 @@ import (
 // variable that survives into the next execution gets a fresh one there.
 type SyncObj struct {
 	obj *Obj
-	ex  *Exec
+	ex  uint64
 }
 
 // Op declares one operation on the object. Outside an execution it does nothing.
@@ -26,15 +26,15 @@ func (a *SyncObj) Op(site string) {
 	if e == nil || e.running == nil {
 		return
 	}
-	if a.obj == nil || a.ex != e {
-		a.obj, a.ex = NewObj("sync"), e
+	if a.obj == nil || a.ex != e.serial {
+		a.obj, a.ex = NewObj("sync"), e.serial
 	}
 	e.wait(site, "sync", nil, true, a.obj)
 }
 
 // Fresh reports whether the object has not been used in the current execution
 // yet (state kept from an earlier execution must then be dropped).
-func (a *SyncObj) Fresh() bool { return cur != nil && a.ex != cur }
+func (a *SyncObj) Fresh() bool { return cur != nil && a.ex != cur.serial }
 
 // AtomicAddr declares an operation of the function-style sync/atomic API on the
 // variable at address p.
